@@ -317,6 +317,25 @@ var $newType = (size, kind, string, named, pkg, exported, constructor) => {
                             return v[m.prop](...args);
                         };
                     };
+                    /* A promoted method comes from the embedded field that provides it at the
+                       shallowest depth; names provided by several fields at the same depth are
+                       ambiguous and belong to no method set. */
+                    var candidates = new Map(); // target -> prop -> { depth, tie, args }
+                    var consider = (target, m, f, owner, ptrRecv, byValue) => {
+                        $methodSet(owner);
+                        var d = owner.methodDepths[m.prop];
+                        var byProp = candidates.get(target);
+                        if (byProp === undefined) {
+                            byProp = {};
+                            candidates.set(target, byProp);
+                        }
+                        var c = byProp[m.prop];
+                        if (c === undefined || d < c.depth) {
+                            byProp[m.prop] = { depth: d, tie: false, args: [target, m, f, ptrRecv, byValue] };
+                        } else if (d === c.depth && c.args[2] !== f) {
+                            c.tie = true;
+                        }
+                    };
                     fields.forEach(f => {
                         if (f.embedded) {
                             var elem = f.typ.kind === $kindPtr ? f.typ.elem : f.typ;
@@ -325,13 +344,23 @@ var $newType = (size, kind, string, named, pkg, exported, constructor) => {
                                 $methodSet(elem).forEach(m => { valueSet[m.prop] = true; });
                             }
                             $methodSet(f.typ).forEach(m => {
-                                synthesizeMethod(typ, m, f, false, valueSet[m.prop] === true);
-                                synthesizeMethod(typ.ptr, m, f, false, valueSet[m.prop] === true);
+                                consider(typ, m, f, f.typ, false, valueSet[m.prop] === true);
+                                consider(typ.ptr, m, f, f.typ, false, valueSet[m.prop] === true);
                             });
                             $methodSet($ptrType(f.typ)).forEach(m => {
-                                synthesizeMethod(typ.ptr, m, f, true);
+                                if (f.typ.methodDepths[m.prop] === undefined) {
+                                    consider(typ.ptr, m, f, $ptrType(f.typ), true, false);
+                                }
                             });
                         }
+                    });
+                    candidates.forEach(byProp => {
+                        Object.keys(byProp).forEach(prop => {
+                            var c = byProp[prop];
+                            if (!c.tie) {
+                                synthesizeMethod(...c.args);
+                            }
+                        });
                     });
                 });
             };
@@ -447,6 +476,8 @@ var $methodSet = typ => {
     // everything with the same name further down, exactly like a usable method.
     var decided = {};
     var key = (name, pkg) => { return pkg === "" ? name : pkg + "." + name; };
+    var depth = 0;
+    typ.methodDepths = {}; // method prop -> embedding depth at which the method is found
 
     while (current.length > 0) {
         var next = [];
@@ -498,10 +529,12 @@ var $methodSet = typ => {
             var d = found[k];
             if (d.count === 1 && d.method !== null) {
                 base[k] = d.method;
+                typ.methodDepths[d.method.prop] = depth;
             }
         });
 
         current = next;
+        depth++;
     }
 
     typ.methodSetCache = [];
